@@ -4,14 +4,18 @@ import (
 	"bytes"
 	"context"
 	"fmt"
+	goos "os"
 	"runtime"
 	"sort"
 	"strings"
+	"sync"
 
 	"github.com/risor-io/risor"
 	"github.com/risor-io/risor/compiler"
 	"github.com/risor-io/risor/internal/verifhook"
+	modAll "github.com/risor-io/risor/modules/all"
 	modFmt "github.com/risor-io/risor/modules/fmt"
+	modHTTP "github.com/risor-io/risor/modules/http"
 	modJSON "github.com/risor-io/risor/modules/json"
 	modMath "github.com/risor-io/risor/modules/math"
 	modOs "github.com/risor-io/risor/modules/os"
@@ -87,6 +91,18 @@ func (h *c05Host) Join(m map[string]string) string {
 	return strings.Join(ks, ",")
 }
 
+type c05Pt struct {
+	A int
+	B string
+	C float64
+}
+
+// Describe takes a struct parameter: a script map argument goes through the
+// struct converter.
+func (h *c05Host) Describe(p c05Pt) string { return fmt.Sprintf("%d/%s/%g", p.A, p.B, p.C) }
+
+func (h *c05Host) Size() int { return len(h.Tags) + len(h.Counts) }
+
 type c05Obs struct {
 	Result   string
 	Err      string
@@ -118,6 +134,7 @@ func c05Globals(h *Host) map[string]any {
 	return map[string]any{
 		"mark": h.Recorder("mark"), "emit": h.RecorderRet("emit", 1), "emits": h.Recorder("emits"),
 		"json": modJSON.Module(), "strings": modStrings.Module(), "fmt": modFmt.Module(), "math": modMath.Module(), "os": modOs.Module(),
+		"http": modHTTP.Module(),
 		// host-supplied Go maps and a struct with map fields (conversion paths)
 		"hm":  map[string]any{"z": 1, "a": []any{1, 2}, "m": map[string]any{"k": "v", "b": 2}, "q": "s"},
 		"hmi": map[string]int{"one": 1, "two": 2, "three": 3},
@@ -136,6 +153,9 @@ func c05Once(src string, pol *orderPolicy) *c05Obs {
 	// configuration flags ride in the first line of the program ("// flags: ...")
 	useDefaults := strings.Contains(firstLineOf(src), "defaults")
 	useVOS := strings.Contains(firstLineOf(src), "vos")
+	useDeny := strings.Contains(firstLineOf(src), "deny")
+	useOverride := strings.Contains(firstLineOf(src), "override")
+	useLocal := strings.Contains(firstLineOf(src), "local")
 	var opts []risor.Option
 	if useDefaults {
 		// the default global environment is assembled inside this repetition,
@@ -154,6 +174,10 @@ func c05Once(src string, pol *orderPolicy) *c05Obs {
 			// (a mount at "/" hands its source paths without the leading slash)
 			mocks[i].WriteFile("/seed.txt", []byte(tag), 0o644)
 			mocks[i].WriteFile("seed.txt", []byte(tag), 0o644)
+			mocks[i].MkdirAll("/dir", 0o755)
+			for _, n := range []string{"/dir/c.txt", "/dir/a.txt", "/dir/b.txt", "/dir/d.txt"} {
+				mocks[i].WriteFile(n, []byte(tag+n), 0o644)
+			}
 		}
 		vos := ros.NewVirtualOS(ctx, ros.WithCwd("/"), ros.WithMounts(map[string]*ros.Mount{
 			"/":          {Source: mocks[0], Target: "/", Type: "mem"},
@@ -162,7 +186,23 @@ func c05Once(src string, pol *orderPolicy) *c05Obs {
 		}), ros.WithEnvironment(map[string]string{"B": "2", "A": "1", "C": "3"}))
 		opts = append(opts, risor.WithOS(vos))
 	}
+	if useDeny {
+		opts = append(opts, risor.WithoutGlobals("os.exit", "os.getpid", "math.nosuch", "strings.nosuch", "nosuchglobal"))
+	}
+	if useOverride {
+		opts = append(opts, risor.WithGlobalOverride("math.pi", 3), risor.WithGlobalOverride("strings.sep", "|"), risor.WithGlobalOverride("ovr", 7), risor.WithGlobalOverride("math.tau", 6))
+	}
+	if useLocal {
+		opts = append(opts, risor.WithLocalImporter(c05ModuleDir()))
+	}
 	cfg := risor.NewConfig(opts...)
+	if useDefaults {
+		obs.Log += fmt.Sprintf("all.Builtins:%d\n", len(modAll.Builtins()))
+	}
+	// what a host sees when it asks the configuration for its globals
+	gl := cfg.Globals()
+	cgl := cfg.CombinedGlobals()
+	obs.Log += fmt.Sprintf("cfg-globals:%d/%d names:%d\n", len(gl), len(cgl), len(cfg.GlobalNames()))
 	defer func() {
 		// where the files ended up is observable too
 		for i, m := range mocks {
@@ -217,8 +257,30 @@ func c05Once(src string, pol *orderPolicy) *c05Obs {
 	} else if res != nil {
 		obs.Result = string(res.Type()) + ":" + safeInspect(res)
 	}
-	obs.Log = strings.Join(h.LogStrings(), "\n")
+	obs.Log += strings.Join(h.LogStrings(), "\n")
 	return obs
+}
+
+var c05DirOnce sync.Once
+var c05Dir string
+
+// c05ModuleDir is a scratch directory with one module for WithLocalImporter.
+func c05ModuleDir() string {
+	c05DirOnce.Do(func() {
+		base := goos.Getenv("VERIF_OUT")
+		if base == "" {
+			base = goos.TempDir()
+		} else {
+			base = dirOf(base)
+		}
+		d, err := goos.MkdirTemp(base, "c05mods-")
+		if err != nil {
+			panic("harness: " + err.Error())
+		}
+		goos.WriteFile(d+"/lm.risor", []byte("tbl := {\"b\": 2, \"a\": 1, \"c\": 3}\nfunc f(m) { out := []; for k, v := range m { out.append(k) }; for k, v := range tbl { out.append(k) }; return out }\n"), 0o644)
+		c05Dir = d
+	})
+	return c05Dir
 }
 
 func firstLineOf(s string) string {
@@ -233,6 +295,9 @@ func genC05Program(g *sim.Stream, tier string) string {
 	cg.MapHeavy = true
 	useDefaults := g.Chance(1, 3)
 	useVOS := g.Chance(1, 4)
+	useDeny := g.Chance(1, 6)
+	useOverride := g.Chance(1, 6)
+	useLocal := g.Chance(1, 6)
 	maxN := 10
 	if tier == "thorough" {
 		maxN = 40
@@ -245,6 +310,15 @@ func genC05Program(g *sim.Stream, tier string) string {
 	}
 	if useVOS {
 		b.WriteString(" vos")
+	}
+	if useDeny {
+		b.WriteString(" deny")
+	}
+	if useOverride {
+		b.WriteString(" override")
+	}
+	if useLocal {
+		b.WriteString(" local")
 	}
 	b.WriteString("\n")
 	for _, st := range stmts {
@@ -263,6 +337,14 @@ func genC05Program(g *sim.Stream, tier string) string {
 		b.WriteString("emits(string(os.read_file(\"/data/seed.txt\")))\nemits(string(os.read_file(\"/data/deep/seed.txt\")))\nemits(string(os.read_file(\"/seed.txt\")))\n")
 		b.WriteString("emits(string(try(func() { return os.read_dir(\"/data\").map(func(e) { return e.name }) }, func(e) { return string(e) })))\n")
 		b.WriteString("emits(string(sorted(os.environ())))\n")
+		b.WriteString("emits(string(try(func() { return os.read_dir(\"/data/dir\").map(func(e) { return e.name }) }, func(e) { return string(e) })))\n")
+		b.WriteString("emits(string(try(func() { return os.read_dir(\"/dir\").map(func(e) { return e.name }) }, func(e) { return string(e) })))\n")
+	}
+	if useOverride {
+		b.WriteString("emits(string(math.pi))\nemits(string(ovr))\n")
+	}
+	if useLocal {
+		fmt.Fprintf(&b, "import lm\nemits(string(lm.f(%s)))\n", cg.mapExpr(1))
 	}
 	// extra observable uses of containers
 	maps := cg.varsOf(tMap, false)
@@ -271,7 +353,18 @@ func genC05Program(g *sim.Stream, tier string) string {
 		if len(maps) > 0 && g.Bool() {
 			m = maps[g.Intn(len(maps))].Name
 		}
-		switch g.Intn(22) {
+		switch g.Intn(27) {
+		case 22:
+			b.WriteString("emits(hs.Describe({\"C\": 1.5, \"B\": \"bee\", \"A\": 4}))\nemits(string(hs.Size()))\n")
+		case 23:
+			fmt.Fprintf(&b, "emits(string(spawn(func(a) { return [a, len(%s)] }, %d).wait()))\n", m, i)
+		case 24:
+			b.WriteString("rq := http.request(\"http://h.example/p?b=1&a=2&c=3\", {\"params\": {\"z\": \"1\", \"y\": \"2\", \"x\": 3}, \"headers\": {\"B-H\": \"1\", \"A-H\": \"2\", \"C-H\": \"3\"}, \"method\": \"POST\", \"data\": {\"k2\": 2, \"k1\": 1}})\nemits(string(rq.url))\nemits(string(rq.query))\nemits(string(rq.header))\n")
+		case 25:
+			fmt.Fprintf(&b, "emits(string(try(func() { return %s.nosuch }, func(e) { return string(e) })))\n", m)
+		case 26:
+			b.WriteString("emits(string(keys(hs.__type__.attributes)))\nemits(string(hs.__type__.name))\n")
+			b.WriteString("emits(string(try(func() { return hs.Nosuch }, func(e) { return string(e) })))\nemits(string(try(func() { return math.nosuch }, func(e) { return string(e) })))\n")
 		case 8:
 			fmt.Fprintf(&b, "cp%d := %s.copy()\nemits(string(cp%d))\n", i, m, i)
 		case 9:
@@ -321,6 +414,10 @@ func genC05Program(g *sim.Stream, tier string) string {
 	if g.Chance(1, 6) {
 		// an error message that may list names
 		b.WriteString("[1, 2].nosuchmethod()\n")
+	}
+	if g.Chance(1, 25) {
+		// rejected by the compiler after everything above was compiled
+		b.WriteString("undefined_name_zz + 1\n")
 	}
 	b.WriteString(cg.FinalExpr())
 	b.WriteString("\n")
